@@ -44,3 +44,24 @@ mod plug;
 pub use graph::*;
 pub use plug::*;
 pub use wac_types as types;
+
+/// Verification hook (compiled only with `--cfg wac_verif`): the component type that is written
+/// for a package when dependencies are imported rather than embedded, by itself.
+#[cfg(wac_verif)]
+pub mod verif {
+    use crate::encoding::{State, TypeEncoder};
+    use wac_types::{Types, WorldId};
+    use wasm_encoder::ComponentTypeRef;
+
+    /// Encodes `(component (type (component …world…)) (import <name> (component (type 0))))`
+    /// exactly as `CompositionGraphEncoder::instantiation` does for `define_components: false`.
+    pub fn encode_component_type_import(types: &Types, world: WorldId, import_name: &str) -> Vec<u8> {
+        let mut state = State::new();
+        let encoder = TypeEncoder::new(types);
+        let ty = encoder.component(&mut state, world);
+        state
+            .builder()
+            .import(import_name, ComponentTypeRef::Component(ty));
+        std::mem::take(state.builder()).finish()
+    }
+}
